@@ -471,6 +471,14 @@ def run(tier, seed, which="C03"):
         index_ob = iob
         from . import c04snap
         snap_obs = c04snap.run(tier, seed)
+        from . import c08
+        inst_ob = c08.run_c04_order(tier, seed)
+        if inst_ob.get("verdict") == "violation":
+            from lib import native as _n
+            pth = _n.write_replay("C04", "c04", "model", [], {"engine": "smt", "mode": "model-only", "obligation": inst_ob["harness"], "message": inst_ob["message"], "model": inst_ob.get("counterexample")})
+            inst_ob["replay_path"] = pth
+            inst_ob["replay"] = {"path": pth, "outcome": "model-only", "message": "emission order of a snapshot installation (a native run would need a kill between two actor messages)"}
+        snap_obs.append(inst_ob)
     from lib import native
     import os
     if which == "C04" and not os.environ.get("VERIF_NO_NATIVE"):
